@@ -86,8 +86,21 @@ def directed_cases():
     case("timer-idle", [["setci", 5], ["timer"]], ["timer"])
     case("timer-after-reopen", [["setci", 5], ["timer"], ["reopen", "destroy"], ["setci", 6], ["setci", 7]], ["timer"])
     case("setci", [["setci", 5], ["timer"]], ["setci", 8])
+    # setTermAndVote: the whole meta dict through .meta.tmp + rename, at once
+    case("settv-first", [], ["settv", 1, "n1:1"])
+    case("settv-pending-ci", [["setci", 5]], ["settv", 1, "n1:1"], [["timer"]])
+    case("settv-replace", [["setci", 5], ["settv", 1, "n1:1"], ["add", 1, 1, {"n": 3, "s": 1}], ["setci", 9]], ["settv", 2, None])
+    case("settv-same-again", [["settv", 1, "n1:1"]], ["settv", 1, "n1:1"])
+    case("settv-after-reopen", [["setci", 4], ["settv", 1, "n2:2"], ["reopen", "abandon"], ["setci", 6]], ["settv", 2, "n2:2"])
+    case("timer-after-settv", [["settv", 3, "n1:1"], ["setci", 7]], ["timer"])
+    case("add-after-settv", [["setci", 2], ["settv", 3, "n1:1"]], ["add", 1, 1, {"n": 9, "s": 2}])
+    case("delto-after-settv", small_adds(4) + [["setci", 2], ["settv", 3, "n1:1"], ["setci", 3]], ["delto", 2], all_t=False)
     case("add-with-pending-ci", [["setci", 5], ["timer"], ["setci", 6]], ["add", 1, 1, {"n": 5, "s": 2}], [["timer"]])
     return cs
+
+
+def no_stored_ci(jm, snap):
+    return snap[1] is None or lib.meta_value_str(jm, snap[1]) in ("none", "torn")
 
 
 def t_values(L, rng, all_t):
@@ -138,7 +151,7 @@ class Walker(object):
             self.out["violations"].append({"signature": sig, "what": what, "replay": dict(inp, kind="crash")})
 
     # -- one crash point ---------------------------------------------------------------------------
-    def point(self, pre, op, snap, pending, prims, final, old, allowed, k, t, do_kill, cont_rng):
+    def point(self, pre, op, snap, pending, prims, final, old, allowed, k, t, do_kill, cont_rng, tv_old=(0, None)):
         jm, cov = self.jm, self.cov
         np_ = len(prims)
         inp = {"pre": pre, "op": op, "k": k, "t": t}
@@ -155,6 +168,8 @@ class Walker(object):
             cov.hit("points.delfrom_with_intermediate_header_writes")
         if kind == "timer" and np_:
             cov.hit("points.timer_TC_TW_TM")
+        if kind == "settv" and pending is not None:
+            cov.hit("points.settv_with_pending_ci")
         if kind == "delto" and np_ and prims[-1][0] == "JM":
             cov.hit("points.delto_after_rename" if k == np_ else "points.delto_before_rename")
             if prims[0][0] == "JR":
@@ -211,6 +226,10 @@ class Walker(object):
                              "reopening after a kill inside %s at primitive %d (+%d bytes) raises %s" % (op[:3], k, t, o["err"]), inp)
             else:
                 m = lib.crash_monitor(op, old, o["ents"], o["ci"], allowed)
+                tv_ok = {tuple(tv_old)} | ({(op[1], op[2])} if kind == "settv" else set())
+                if m is None and o["tv"] not in tv_ok:
+                    m = ("journal.setTermAndVote:lost-or-invented-after-kill",
+                         "(term, vote) after kill+reopen is %r, admissible: %s" % (o["tv"], sorted(tv_ok, key=repr)))
                 if m is not None:
                     if m[0] == lib.D15_SIGNATURE:
                         cov.hit("d15_headdrop_losses")
@@ -252,7 +271,7 @@ class Walker(object):
             elif c < 0.9:
                 op = ["reopen", rng.choice(["destroy", "abandon"])]
             else:
-                op = rng.choice([["clear"], ["setci", 77], ["timer"]])
+                op = rng.choice([["clear"], ["setci", 77], ["timer"]] + ([["settv", 7, "n2:2"]] * 2 if r2.has_tv() else []))
             ops.append(op)
             try:
                 if op[0] == "reopen":
@@ -291,6 +310,7 @@ class Walker(object):
         if model is not None:
             model.new()
         ref, allowed, pre = [], set(), []          # values passed to setRaftCommitIndex so far
+        tv = (0, None)                             # (term, vote) last stored by setTermAndVote
         crash = case.get("crash", "all")
         source = case.get("source")
         aops = case.get("ops")
@@ -310,6 +330,8 @@ class Walker(object):
                     op = lib.resolve(aops[i], real.view())
                 if op[0] == "add" and (op[1] >= lib.U64 or op[2] >= lib.U64):
                     continue
+                if op[0] == "settv" and not real.has_tv():
+                    continue                              # tree without setTermAndVote: op skipped silently
                 if op[0] == "reopen":
                     if os.path.exists(self.path + ".tmp"):
                         cov.hit("walk.reopen_with_stale_tmp")
@@ -377,9 +399,10 @@ class Walker(object):
                                     break
                                 do_kill = case.get("kill_all", False) or rng.random() < kill_p
                                 crng = rng if rng.random() < cont_p else None
-                                # the default 1 is admissible only while no .meta file had been stored
-                                adm = set(allowed) | ({1} if snap[1] is None else set())
-                                self.point(list(pre), op, snap, pending, prims, final, old, adm, k, t, do_kill, crng)
+                                # the default 1 is admissible only while no commit index had been stored
+                                # (no .meta, or a .meta written by setTermAndVote before any setRaftCommitIndex)
+                                adm = set(allowed) | ({1} if no_stored_ci(jm, snap) else set())
+                                self.point(list(pre), op, snap, pending, prims, final, old, adm, k, t, do_kill, crng, tv)
                     reply = model.ask(lib.op_line(op)) if model is not None else None
                 if reply is not None:
                     mine = "ok " + real.summary(prims)
@@ -388,6 +411,12 @@ class Walker(object):
                         break
                 lib.ref_apply(ref, op)
                 pre.append(op)
+                if op[0] == "settv":
+                    tv = (op[1], op[2])
+                if real.tv() != tv:
+                    self.violate("journal.setTermAndVote:not-persisted", "after %s getTermAndVote() = %r, last stored %r"
+                                 % (op[:2], real.tv(), tv), {"pre": list(pre[:-1]), "op": op, "k": 10 ** 6, "t": 0})
+                    break
                 if real.entries() != ref:
                     self.violate("journal.%s:list-divergence" % op[0], "journal %s, list %s" % (lib.short_ents(real.entries()), lib.short_ents(ref)),
                                  {"pre": list(pre[:-1]), "op": op, "k": len(prims), "t": 0})
@@ -474,7 +503,8 @@ def run(ctx):
               ("points.delto_before_rename", 100), ("points.delto_after_rename", 10), ("torn.JS", 30), ("torn.JW", 10),
               ("points.delto_with_stale_tmp", 30), ("points.delto_tmp_grows", 20), ("points.with_stale_tmp", 50),
               ("reopen_with_stale_tmp", 50), ("crashjt_compared", 50), ("continued_with_stale_tmp", 10),
-              ("continued_delto_removes_stale_tmp", 2), ("walk.crashat_leaves_stale_tmp", 5)]
+              ("continued_delto_removes_stale_tmp", 2), ("walk.crashat_leaves_stale_tmp", 5),
+              ("points.settv", 30), ("points.settv_with_pending_ci", 8)]
     missed = ["%s=%d<%d" % (k, cov.get(k, 0), f) for k, f in floors if cov.get(k, 0) < f]
     if done < n_rand // 2 and len(out["disagreements"]) < 3:
         missed.append("random sequences %d < %d (time budget)" % (done, n_rand // 2))
@@ -514,7 +544,7 @@ def replay_crash(jm, tmp, rp):
         real = lib.Real(jm, path)
     except Exception as e:                               # noqa
         return ("journal.open:exception:" + type(e).__name__, "creating a fresh journal raised %r" % (e,)), False
-    ref, allowed = [], set()
+    ref, allowed, tv = [], set(), (0, None)
     try:
         for op in rp.get("pre", []):
             if op[0] == "reopen":
@@ -522,17 +552,21 @@ def replay_crash(jm, tmp, rp):
             elif op[0] == "crashat":
                 op, _ = lib.concretise_crashat(jm, os.path.join(tmp, "dry"), real, op)
                 real, _k = lib.crash_reopen(real, op[1], op[2], op[3])
+            elif op[0] == "settv" and not real.has_tv():
+                continue
             else:
                 real.apply(op)
                 if op[0] == "setci":
                     allowed.add(op[1])
+                if op[0] == "settv":
+                    tv = (op[1], op[2])
             lib.ref_apply(ref, op)
         op = rp["op"]
         if op[0] == "setci":
             allowed.add(op[1])
         snap = lib.snapshot(path)
         pending = real.pending_ci()
-        if snap[1] is None:
+        if no_stored_ci(jm, snap):
             allowed.add(1)
     finally:
         real.abandon()
@@ -546,6 +580,9 @@ def replay_crash(jm, tmp, rp):
         if "err" in o:
             return ("journal.%s:reopen-raises-after-kill:%s" % (op[0], o["err"]), "reopen raises " + o["err"]), killed
         m = lib.crash_monitor(op, ref, o["ents"], o["ci"], allowed)
+        tv_ok = {tv} | ({(op[1], op[2])} if op[0] == "settv" else set())
+        if m is None and o["tv"] not in tv_ok:
+            m = ("journal.setTermAndVote:lost-or-invented-after-kill", "(term, vote) after kill+reopen is %r" % (o["tv"],))
         if m is None and rp.get("then"):
             r2, ref2 = o["real"], list(o["ents"])
             for op2 in rp["then"]:
